@@ -29,7 +29,7 @@ import random                                     # noqa: E402
 from insights.core import dr, plugins, spec_factory          # noqa: E402
 from insights.core.context import HostContext, SerializedArchiveContext   # noqa: E402
 from insights.core.exceptions import (SkipComponent, ContentException, CalledProcessError,   # noqa: E402
-                                      TimeoutException, ValidationException)
+                                      TimeoutException, ValidationException, BlacklistedSpec)
 from insights import settings                                 # noqa: E402
 from insights.core.plugins import Response                    # noqa: E402
 import insights                                               # noqa: E402
@@ -77,7 +77,7 @@ class Unhashable(Exception):
     __hash__ = None
 
 
-EXC_KINDS = {"skip", "ce", "cpe", "tmo", "boom", "verr", "kerr", "badstr", "unhash"}
+EXC_KINDS = {"skip", "ce", "cpe", "tmo", "boom", "verr", "kerr", "badstr", "unhash", "blk"}
 
 
 def make_exc(kind, tag):
@@ -91,6 +91,8 @@ def make_exc(kind, tag):
         return TimeoutException(tag)
     if kind == "boom":
         return Boom(tag)
+    if kind == "blk":
+        return BlacklistedSpec(tag)          # what a provider raises for a deny-listed file / command
     if kind == "verr":
         return ValueError(tag)
     if kind == "kerr":
@@ -103,6 +105,8 @@ def make_exc(kind, tag):
 
 
 def kind_of(e):
+    if isinstance(e, BlacklistedSpec):
+        return "blk"
     if isinstance(e, ValidationException):
         return "valexc"
     if type(e) is Exception:
@@ -425,7 +429,7 @@ def gen_program(st, flavour, tier):
         if t != "rp" and rf.random() < fl["fault"]:
             kinds = ["skip", "skip", "boom", "verr", "kerr", "none", "ce", "cpe", "cpe", "zero", "emptystr"]
             if t == "datasource":
-                kinds += ["tmo", "slow", "slow"] if hostctx else ["tmo"]
+                kinds += ["tmo", "slow", "slow", "blk"] if hostctx else ["tmo", "blk"]
             if flavour == "C03" and rf.random() < 0.04:
                 kinds = ["badstr", "unhash"]
             nd["out"] = rf.choice(kinds)
@@ -785,6 +789,8 @@ def model(case, fixed_f1=True, pool_thread=False):
                 rec(r, "tmo", timeout_tag(nd))
             if ss:
                 rec(i, "skip", "")
+        elif oc == "blk":
+            rec(i, "blk", tag)            # against the raising component itself, not against its specs
         elif oc in ("ce", "cpe", "tmo"):
             if t == "plain":
                 if oc == "ce":                      # a ContentException *is* the skip signal for the bare engine
